@@ -221,5 +221,10 @@ m("c13-fci-open-shell-swaps-spin-counts", "C13", FCI, "                one_rdm, 
 m("c13-ccsd-2rdm-without-1rdm-part", "C13", CCSD, "            two_rdm = _make_rdm2(self.cc_fragment, d1, d2, with_dm1=True, with_frozen=False)", "            two_rdm = _make_rdm2(self.cc_fragment, d1, d2, with_dm1=False, with_frozen=False)")
 m("c13-resample-draws-from-uniform", "C13", VQE, "                            resampled_freq_dict = get_resampled_frequencies(qb_freq_dict[qb_term], self.backend.n_shots)", "                            resampled_freq_dict = get_resampled_frequencies({kk: 1 / len(qb_freq_dict[qb_term]) for kk in qb_freq_dict[qb_term]}, self.backend.n_shots)")
 
+m("c13-revert-pad-copy-unrestricted", "C13", RDMS, "    twordm_ab = twordm_ab.transpose(1, 0, 3, 2).copy()", "    twordm_ab = twordm_ab.transpose(1, 0, 3, 2)")
+m("c13-uhf-energy-ab-factor", "C13", MOLF, "            factor = [1/2, 1, 1/2]", "            factor = [1/2, 1/2, 1/2]")
+m("c13-vqe-uhf-ab-block-diagonal-case", "C13", VQE, "                    elif (iele_r, jele_r, kele_r, lele_r) == (0, 1, 1, 0):\n                        rdm2_np_ba[iele, lele, jele, kele] += opt_energy2\n",
+  "                    elif (iele_r, jele_r, kele_r, lele_r) == (0, 1, 1, 0):\n                        rdm2_np_ba[iele, lele, jele, kele] += 0.5 * opt_energy2\n")
+
 EXPECTED_MISS = {"c07-puccd-mapping-reversed": "build_circuit delegates to update_var_params: single code path, invisible to incremental-vs-fresh"}
 MUTANTS = M
